@@ -145,16 +145,18 @@ def run (ctx):
       rn_ = p_[-1]
       try: v_ = q.eval_env2(repo, mod, rn_.ast.value, e_, pc)
       except Exception: v_ = '?'
-      try: out.add(tuple(sorted(v_)))
+      try: out.add(tuple(sorted(v_, key=str)))
       except Exception: out.add('?')
     return out
   k1, k0 = keys_under(True), keys_under(False)
-  if '?' in k1 or '?' in k0 or not k1 or not k0:
+  from .. import caches
+  caches.check(ctx, repo, [pc], 'D1', "the port view (keys, length, iteration, membership) no longer equals the reported ports with the notifications applied")
+  if '?' in k1 or '?' in k0 or not k1 or not k0 or any('?' in x_ for x_ in k1 | k0 if isinstance(x_, tuple)):
     ctx.undecided('R-AGREE', ks, "keys = originally reported numbers minus masked ones plus own", "keys() could not be evaluated on the sample collection (%s)" % txt[:4], ks, 'D1')
   else:
     good = k1 == {(1, 3, 4)} and k0 == {(4,)}
     ctx.ob('R-AGREE', ks, "keys = originally reported numbers minus masked ones plus own", good, "{1,2,3} - {2} + {4} -> {1,3,4}" if good else
-           "with originally reported ports 1,2,3, port 2 deleted and port 4 added, keys() yields %s (and %s without a chain): expected [1, 3, 4] / [4]" % (sorted(k1), sorted(k0)), ks, 'D1')
+           "with originally reported ports 1,2,3, port 2 deleted and port 4 added, keys() yields %s (and %s without a chain): expected [1, 3, 4] / [4]" % (sorted(k1, key=str), sorted(k0, key=str)), ks, 'D1')
   # order of the two steps, by evaluation: a number that is both masked and re-added as an own port is a key
   def keys_readded ():
     env = q.Env({'self._chain': '<chain>', 'self._masks': {2}, 'self._ports': [q.Rec(port_no=2)]}, [(chk, [1, 2, 3])])
